@@ -248,6 +248,160 @@ def stall_params(tier):
     return out
 
 
+def inflight_scenario(params, ch):
+    """packing while something awaits its ack: k retry-mode messages have been transmitted and are still unacked (the acks
+    are withheld, or the round trip is longer than a frame), then FURTHER send() calls queue new messages on the following
+    frames - before the 0.1 s resend is due and in the very frame in which it is.  Every frame is judged on its own: a
+    datagram emitted in a frame may not leave behind a message that was queued before the frame and that it still has room
+    for (20 + sum(len) + overhead(n) + 16 <= MTU-28, n <= 255), whatever else (resends) it carries; in the end every
+    queued message has reached the peer (the data direction is never disturbed)."""
+    mtu, path, inflight, spread, gap, follow, latency = params
+    sender = "c" if path == "client" else "s"
+    recv = "s" if sender == "c" else "c"
+    src_ = "c0" if sender == "c" else "s"
+    mon = DeliveryMonitor(flag_delivery=False)
+    sm = SizeMonitor(mtu)
+    w = World(chooser=ch, monitors=[mon, sm], mtu=mtu, dt=0.02, latency=latency, server_send=("thread" if path == "server-thread" else "twisted"))
+    P0 = caps(mtu)[0]
+    queued = []
+    seen = {"unacked": 0, "judged": 0, "resend+new": 0, "frames": 0}
+
+    def conn_():
+        return w.clients[0].conn if sender == "c" else w.server_conn(0)
+
+    def frame(sends):
+        """the application queues ``sends`` and one frame passes"""
+        for L, mode in sends:
+            data = payload(len(queued) + 1, L)
+            queued.append(data)
+            e = app_send(w, mon, sender, data, mode)
+            if e is not None:
+                ch.flag("send-raises", "send() raises %s" % type(e).__name__, "len %d at MTU %d: %r" % (L, mtu, e))
+        c = conn_()
+        before = list(c.outgoing_messages) if c is not None else []
+        unacked = len(c.pending_retry_msg) if c is not None else 0
+        old = set(int(s) for s in c.pending_retry_msg) if c is not None else set()
+        if sends:
+            seen["unacked"] = max(seen["unacked"], unacked)
+        n0 = len(w.all_sent)
+        w.tick()
+        seen["frames"] += 1
+        c = conn_()
+        if c is None or not before:
+            return
+        ids = set(id(m) for m in before)
+        left = [m for m in c.outgoing_messages if id(m) in ids]
+        for d in w.all_sent[n0:]:
+            if d.src != src_:
+                continue
+            ms = open_datagram(w, d)
+            if ms is None:
+                continue
+            seen["judged"] += 1
+            n_k = len(ms)
+            s_k = sum(len(pl) for _, _t, pl in ms)
+            resent = [s for s, _t, _pl in ms if s in old]
+            if resent and len(resent) < n_k:
+                seen["resend+new"] += 1
+            for m in left:
+                L = len(m.payload)
+                n2 = n_k + 1
+                if n2 <= 255 and L + s_k + (2 if n2 == 1 else 5 * n2) <= P0 + 2:
+                    ch.flag("fit-together", "a datagram built while retry-mode messages await their ack leaves a queued message behind although it still has room for it",
+                            "%s at MTU %d: %d message(s) unacked in pending_retry_msg when the frame began; the datagram of this frame carries %d message(s) / %d bytes (%d of them resends), "
+                            "a %d-byte message queued before the frame stays in the queue (%d queued before, %d after; in flight %r, then %r)" % (
+                                path, mtu, unacked, n_k, s_k, len(resent), L, len(before), len(c.outgoing_messages), inflight, follow))
+                    return
+
+    try:
+        if not connected_or_flag(w, ch, mtu):
+            return
+        w.run(2)
+        if inflight:
+            w.start_blackout("s2c" if sender == "c" else "c2s", 30)   # the peer's acks are withheld for 0.6 s (< the 1 s message timeout)
+            if spread == "together":
+                frame(inflight)
+            else:
+                for x in inflight:
+                    frame((x,))
+            for _ in range(gap - 1):
+                frame(())
+        if follow and follow[0] == "steady":
+            # steady traffic over a link whose round trip is longer than a frame: something is always awaiting its ack
+            _, n, L, mode = follow
+            for i in range(n):
+                frame(((L, mode),))
+        else:
+            for sends in follow:
+                frame(sends)
+        for _ in range(8):
+            frame(())
+
+        def drained(w):
+            return sum(mon.delivered[recv].values()) >= len(queued)
+        ok = w.run(150, drained)
+        w.run(3)
+        ch.steps = w.tickno
+        if w.exceptions:
+            ch.flag("packing-raises", "exception from the %s send/update path: %s" % (path, w.exceptions[0][1].split("(")[0]), repr(w.exceptions[:2]))
+        if w.baton.dead:
+            ch.flag("packing-raises", "server thread died while sending", repr(w.baton.error))
+        want = {}
+        for d in queued:
+            want[d] = want.get(d, 0) + 1
+        lost = sum(max(0, n - mon.delivered[recv].get(d, 0)) for d, n in want.items())
+        if lost:
+            c = conn_()
+            ch.flag("lost-message", "message(s) queued while retry-mode messages awaited their ack never reached the peer (the data direction is undisturbed)",
+                    "%d of %d messages lost; still queued %d; path=%s mtu=%d in flight %r then %r" % (lost, len(queued), len(c.outgoing_messages) if c is not None else -1, path, mtu, inflight, follow))
+        ch.outcome = (sm.max <= mtu - 28, ok, lost, min(seen["unacked"], 4), min(seen["judged"], 3), min(seen["resend+new"], 2))
+        ch.info.update(seen)
+    finally:
+        for v in mon.violations + sm.violations:
+            ch.flag(*v)
+        w.close()
+
+
+def inflight_params(tier):
+    out = []
+    mtus = (1500, 512) if tier == "quick" else (1500, 1096, 1095, 512)
+    for mtu in mtus:
+        P, F = caps(mtu)
+        follows = [
+            (((1, "none"),),),
+            (((P, "none"),),),
+            (((30, "best"),),),
+            (((30, "retry"),),),
+            (((0, "none"), (P - 5, "none")),),
+            (((P // 2 + 1, "none"), (P // 2 + 1, "best"), (1, "none")),),
+            (((5, "none"),), ((5, "best"),), ((P - 5, "retry"),)),
+            (((P - 6, "best"),), ((1, "none"), (1, "retry"))),
+            (((P + 300, "retry"),), ((7, "none"),)),
+        ]
+        for path in ("client", "server-twisted", "server-thread"):
+            for mode in ("best", "retry"):
+                for k in (1, 2, 3):
+                    for size, spread in ((7, "together"), (7, "frames"), (P, "frames"), (P // 2 + 1, "frames")):
+                        if k == 1 and spread == "together":
+                            continue
+                        inflight = tuple((size, mode) for _ in range(k))
+                        for gap in (1, 4, 5, 6):
+                            for fi, follow in enumerate(follows):
+                                if tier == "quick":
+                                    # thinned off the client path: every (k, size, gap) still meets every follow-up pattern on some path
+                                    if path != "client" and (fi + gap + k + (mtu == 512) + (mode == "retry") + (path == "server-thread")) % 3:
+                                        continue
+                                out.append((mtu, path, inflight, spread, gap, follow, 1))
+                # mixed modes in flight
+                out.append((mtu, path, ((7, "best"), (P // 2, "retry"), (7, "best")), "frames", 4, (((9, "none"),), ((9, "retry"),), ((9, "best"),)), 1))
+            # steady traffic, round trip of 4 / 8 frames, nothing withheld
+            for latency in (2, 4):
+                for L in (5, P // 2 + 1, P):
+                    for mode in ("best", "retry"):
+                        out.append((mtu, path, (), "frames", 0, ("steady", 24, L, mode), latency))
+    return out
+
+
 def scenario(params, ch):
     mtu, path, sends, burst = params
     sender = "c" if path == "client" else "s"
@@ -531,17 +685,27 @@ def run(tier, seed):
         key = (v["oracle"], v["sig"])
         if key not in acc:
             acc[key] = [getattr(st2, "sig_counts", {}).get(key, 1), {"part": "stall", "params": v["params"], "choices": v["choices"]}, v["message"] + " | params=%r" % (v["params"],)]
+    iplist = inflight_params(tier)
+    st3 = explore.explore_all("checks.c09", "inflight_scenario", iplist, 0, time_budget=(900 if tier == "quick" else 1800))
+    for v in st3.violations:
+        key = (v["oracle"], v["sig"])
+        if key not in acc:
+            acc[key] = [getattr(st3, "sig_counts", {}).get(key, 1), {"part": "inflight", "params": v["params"], "choices": v["choices"]}, v["message"] + " | params=%r" % (v["params"],)]
     for (oracle, sig), (cnt, wit, msg) in sorted(acc.items()):
         rep.add_violation(core.Violation(oracle, sig, wit, "%s [%d cases]" % (msg[:400], cnt)))
     rep.coverage = {
-        "evaluations": total + st.executions + st2.executions, "distinct_nontrivial": nontrivial + len(st.outcomes) + len(st2.outcomes),
+        "evaluations": total + st.executions + st2.executions + st3.executions, "distinct_nontrivial": nontrivial + len(st.outcomes) + len(st2.outcomes) + len(st3.outcomes),
+        "inflight_executions": st3.executions, "inflight_configurations": len(iplist), "inflight_frames": st3.steps, "inflight_distinct_outcomes": len(st3.outcomes), "inflight_capped": st3.capped,
         "codec_cases": total, "codec_exact_round_trips": nontrivial, "codec_classes": dict(classes),
         "stall_executions": st2.executions, "stall_configurations": len(splist),
         "packing_executions": st.executions, "packing_configurations": len(plist), "packing_ticks": st.steps, "packing_capped": st.capped, "mtu_histories": n_hist, "mtu_changes_on_live_connections": n_live,
         "rule": "codec: isServer x 4 ctimes x 8 types x 5x5 seq/ack x 5 ack_bits x %d message lists (count 0,1,2 with all 64 inner type pairs,3,254,255) x {crc, gcm}%s; non-trivial = exact round trips. "
-                "packing: MTUs x {client, server-twisted, server-thread} x every send sequence of <=2/3 lengths from {0,1,P-6,P-5,P-1,P,P+1,P/2,P/2+1} per retry mode, mixed-mode triples, bursts of 254..300 messages of 0/1 bytes; perfect network until drained. stall: retry-mode messages sent on consecutive frames with withheld acks, then one or two long frames (0.25/0.6 s) so that everything due for resend meets in one build" % (
+                "packing: MTUs x {client, server-twisted, server-thread} x every send sequence of <=2/3 lengths from {0,1,P-6,P-5,P-1,P,P+1,P/2,P/2+1} per retry mode, mixed-mode triples, bursts of 254..300 messages of 0/1 bytes; perfect network until drained. stall: retry-mode messages sent on consecutive frames with withheld acks, then one or two long frames (0.25/0.6 s) so that everything due for resend meets in one build. "
+                "inflight: 1-3 retry-mode messages (7 / P/2+1 / P bytes, one frame or consecutive frames) transmitted and unacked (acks withheld 0.6 s), then further sends of every mode "
+                "(0..P bytes, fragmented, one or several per frame, 1-3 frames) 1/4/5/6 frames later - before and when the 0.1 s resend is due - plus steady one-message-per-frame traffic over a round trip of 4/8 frames; "
+                "every frame judged on its own: no datagram leaves behind a message queued before the frame that it still has room for, everything reaches the peer" % (
                     len(message_lists()), " (quick: every 5th list per header, rotating)" if tier == "quick" else ""),
-        "exhaustive": not st.capped,
+        "exhaustive": not (st.capped or st3.capped),
         "samples": [{"codec": {"type": 6, "seq": 65535, "ack": 0, "msgs": "count255", "key": True}},
                     {"packing": {"mtu": 1095, "path": "server-thread", "sends": [[1029, "retry"], [0, "none"]]}},
                     {"packing": {"mtu": 1500, "path": "client", "burst": [286, 0]}}],
@@ -554,6 +718,9 @@ def run(tier, seed):
 def replay(witness):
     if witness.get("part") == "stall":
         ch = explore.replay_choices(stall_scenario, _tup(witness["params"]), witness.get("choices", []))
+        return [core.Violation(o, s, witness, m) for o, s, m in ch.found]
+    if witness.get("part") == "inflight":
+        ch = explore.replay_choices(inflight_scenario, _tup(witness["params"]), witness.get("choices", []))
         return [core.Violation(o, s, witness, m) for o, s, m in ch.found]
     if witness.get("part") == "packing":
         ch = explore.replay_choices(scenario, _tup(witness["params"]), witness.get("choices", []))
